@@ -103,7 +103,7 @@ impl Prop for C15 {
         8
     }
     fn watchdog(&self) -> Option<Duration> {
-        Some(Duration::from_secs(60))
+        Some(Duration::from_secs(150))
     }
     fn max_shrink_iters(&self) -> u32 {
         150
@@ -188,7 +188,7 @@ impl Prop for C15 {
             Some((p, idx, ms)) => {
                 STALL_CODE.store(name_code(POINTS[p as usize % POINTS.len()]), Ordering::SeqCst);
                 STALL_IDX.store(idx as u32, Ordering::SeqCst);
-                STALL_MS.store(ms.min(20_000), Ordering::SeqCst);
+                STALL_MS.store(ms.min(70_000), Ordering::SeqCst);
                 st.class("case_with_a_multi_second_stall");
             }
             None => STALL_MS.store(0, Ordering::SeqCst),
@@ -254,7 +254,7 @@ impl Prop for C15 {
         }
         Ok(())
     }
-    fn enumerate(&self, _tier: Tier, _shard: usize, _nshards: usize, st: &mut Stats) -> Result<(), (Case, Failure)> {
+    fn enumerate(&self, tier: Tier, _shard: usize, _nshards: usize, st: &mut Stats) -> Result<(), (Case, Failure)> {
         // fixed long-stall scenarios: 4 workers, 400 days, threshold 0, a 6.5 s stall at one schedule point.
         // Each of the 8 processes runs one of them (all of them when the run is not split over processes).
         let scenarios: [(u8, u16); 8] = [(5, 0), (3, 2), (1, 0), (4, 1), (0, 0), (7, 4), (6, 0), (8, 4)];
@@ -264,20 +264,28 @@ impl Prop for C15 {
         };
         for i in mine {
             let (p, idx) = scenarios[i];
-            let c = Case { workers: 4, days: 400, threshold: 0, plan_seed: 0x5741_4c4c + i as u64, setup: 1, stall: Some((p, idx, 6500)) };
+            // timeouts in such code are typically 1, 5, 10, 30 or 60 s: one scenario stalls 12.5 s in the quick tier,
+            // two stall 35 s and 65 s in the thorough tier, the others 6.5 s
+            let ms = match (tier, i) {
+                (Tier::Quick, 0) => 12_500,
+                (Tier::Thorough, 0) => 65_000,
+                (Tier::Thorough, 1) => 35_000,
+                _ => 6_500,
+            };
+            let c = Case { workers: 4, days: 400, threshold: 0, plan_seed: 0x5741_4c4c + i as u64, setup: 1, stall: Some((p, idx, ms)) };
             crate::engine::guarded(&c, || self.check(&c, st))?;
             st.nontrivial_enum(1);
         }
         Ok(())
     }
     fn rule(&self) -> String {
-        "generated (workers 1..64 with mass at 1,2,3,15,16,17,64; days 0..6000 with mass at 0,1,workers-1,workers,workers+1,365*workers+-1; threshold 0..400 with mass at 0,1 and at the parallel/sequential boundary days/workers; 64-bit delay-plan seed; one of 24 (site, params, start date) setups). Every run installs a schedule hook that, at each of 10 named points (collector start, after each recv, before each spawn, worker start, before/after send, before drop(tx), before join), does nothing / yields / sleeps 20 us - 3 ms as a pure function of (plan seed, point, index, visit). One case in 2,000 additionally stalls one point for 5.2-7 s, and 8 fixed scenarios (one per process) stall each kind of point for 6.5 s. Non-trivial = the parallel branch was really taken (observed through the hook) with >= 2 partitions; distinct by hash of the case".into()
+        "generated (workers 1..64 with mass at 1,2,3,15,16,17,64; days 0..6000 with mass at 0,1,workers-1,workers,workers+1,365*workers+-1; threshold 0..400 with mass at 0,1 and at the parallel/sequential boundary days/workers; 64-bit delay-plan seed; one of 24 (site, params, start date) setups). Every run installs a schedule hook that, at each of 10 named points (collector start, after each recv, before each spawn, worker start, before/after send, before drop(tx), before join), does nothing / yields / sleeps 20 us - 3 ms as a pure function of (plan seed, point, index, visit). One case in 2,000 additionally stalls one point for 5.2-7 s, and 8 fixed scenarios (one per process) stall each kind of point for 6.5 s (one of them 12.5 s; in the thorough tier two of them 35 s and 65 s). Non-trivial = the parallel branch was really taken (observed through the hook) with >= 2 partitions; distinct by hash of the case".into()
     }
     fn assumptions(&self) -> Vec<String> {
         vec![
             "interleavings are perturbed, not enumerated: the realised schedule is not reproducible, the saved case (incl. its delay plan) is the reproducible unit; absence of schedule-dependent failures is not proved".into(),
             "reference = per-day results for exactly the days of the range (shown equal to the sequential range API by C14, and compared with it literally for ranges up to 400 days)".into(),
-            "stalls are bounded by 7 s: a timeout longer than that in the code under test is not reached; termination: a run exceeding 60 s (normal < 0.5 s) is a hang only if the saved case exceeds the bound again in a fresh process".into(),
+            "injected stalls are at most 12.5 s in the quick tier and 65 s in the thorough tier: a longer timeout in the code under test is not reached; termination: a run exceeding 150 s (normal < 0.5 s) is a hang only if the saved case exceeds the bound again in a fresh process".into(),
             "within a process cases run one at a time (the hooks are process-global); the run is split over 8 processes with different seeds".into(),
         ]
     }
